@@ -73,6 +73,58 @@ def time_limit_status(ctx):
                              f"{'' if later else 'never '}accepted ({len(calls)} tests ran)", case)
 
 
+def cli_check_only(ctx):
+    """`--strategy check-only` as a user types it — separate value, `=` form, and the unambiguous abbreviations argparse
+    accepts (`--strat`, `--strateg`): one test, status by its verdict, the file never written, whatever the verdict"""
+    import contextlib
+    import io
+    import os
+    from lithium.reducer import Lithium
+    from .. import loaders
+
+    d = loaders.scratch() / "c11-cli"
+    d.mkdir(exist_ok=True)
+    (d / "c11_probe.py").write_text(
+        "import os\nCALLS = []\ndef interesting(args, prefix):\n    CALLS.append(open(args[-1], 'rb').read())\n"
+        "    return os.environ.get('C11_VERDICT') == 'a'\n")
+    cwd = os.getcwd()
+    os.chdir(d)
+    try:
+        for spelling in (["--strategy=check-only"], ["--strategy", "check-only"], ["--strat=check-only"], ["--strat", "check-only"],
+                         ["--strateg=check-only"], ["--strategy=check-only", "--char"], ["--symbol", "--strat=check-only"]):
+            for verdict in ("a", "r"):
+                tc = d / "tc.txt"
+                data = b"one\ntwo\nthree\nfour\n"
+                tc.write_bytes(data)
+                os.utime(tc, ns=(10**18, 10**18))
+                ino = os.stat(tc).st_ino
+                os.environ["C11_VERDICT"] = verdict
+                argv = spelling + ["c11_probe.py", str(tc)]
+                case = dict(cli=True, argv=argv[:-1], verdict=verdict)
+                lith = Lithium()
+                try:
+                    with contextlib.redirect_stdout(io.StringIO()), contextlib.redirect_stderr(io.StringIO()):
+                        rc = lith.main(argv)
+                except (Exception, SystemExit) as exc:  # pylint: disable=broad-except
+                    ctx.fail("cli-raises", f"main({argv[:-1]}) raised {type(exc).__name__}: {exc}", case)
+                    continue
+                finally:
+                    os.environ.pop("C11_VERDICT", None)
+                ctx.evaluations += 1
+                ctx.bump("cli-check-only")
+                st = os.stat(tc)
+                if tc.read_bytes() != data or st.st_mtime_ns != 10**18 or st.st_ino != ino:
+                    ctx.fail("check-only", f"main({argv[:-1]}) with a test that {'accepts' if verdict == 'a' else 'rejects'}: the file was written "
+                             f"(now {tc.read_bytes()!r})", case)
+                if lith.test_count != 1:
+                    ctx.fail("check-only", f"main({argv[:-1]}): {lith.test_count} tests were run, check-only runs exactly one", case)
+                if rc != (0 if verdict == "a" else 1):
+                    ctx.fail("status", f"main({argv[:-1]}) returned {rc} for verdict {verdict}", case)
+                ctx.nontriv("cli-check-only", tuple(spelling), verdict)
+    finally:
+        os.chdir(cwd)
+
+
 def search(ctx):
     time_limit_status(ctx)
     edited_file(ctx)
@@ -84,6 +136,7 @@ def search(ctx):
 def run(ctx) -> int:
     proof = common.proof_stage(ctx.pid)
     edited_file(ctx)
+    cli_check_only(ctx)
     time_limit_status(ctx)
     drv.d1(ctx, WHICH, 20000 if ctx.thorough else 5000, NT, allow_abort=False)
     drv.d2_random(ctx, WHICH, NT, 3000 if ctx.thorough else 1000, aborts=False)
